@@ -37,7 +37,7 @@ structure Inv (cfg : Cfg) (s : State) : Prop where
   nc : ∀ cls a, s.ncCache.lookup cls = some a →
     ∃ p, s.heap.lookup a = some p ∧ p.cls = cls ∧ p.noColor = true
   subs : ∀ pa c b, s.subs.lookup (pa, c) = some b →
-    ∃ pp pb, s.heap.lookup pa = some pp ∧ s.heap.lookup b = some pb ∧ pb.cls = c ∧
+    ∃ pp pb, s.heap.lookup pa = some pp ∧ s.heap.lookup b = some pb ∧ pb.cls = subCls cfg pp.cls c ∧
       pb.noColor = pp.noColor ∧ (pp.noColor = false → pb.conf = pp.conf)
   enums : cfg.keyByObj = true → ∀ e ec a v cols, s.enums.lookup e = some ec → ec.lookup (a, v) = some cols →
     ∃ p, s.heap.lookup a = some p ∧ cols = p.colors
@@ -46,7 +46,7 @@ structure Inv (cfg : Cfg) (s : State) : Prop where
     cfg.classes[cls]? = some ci → p.colors = snapshot cfg ci c
   /-- and so have the sub-palettes memoised by a cached palette -/
   subcur : ∀ k c cls pa c2 b pb ci2, s.confs.lookup k = some c → c.cache.lookup cls = some pa →
-    s.subs.lookup (pa, c2) = some b → s.heap.lookup b = some pb → cfg.classes[c2]? = some ci2 →
+    s.subs.lookup (pa, c2) = some b → s.heap.lookup b = some pb → cfg.classes[subCls cfg cls c2]? = some ci2 →
     pb.colors = snapshot cfg ci2 c
   /-- the global configuration exists -/
   glob : (s.confs.lookup s.global).isSome
@@ -407,9 +407,10 @@ theorem inv_cacheNc {cfg : Cfg} {s : State} (hinv : Inv cfg s) {cls : ClassId} {
   · rw [lookup_cons_ne _ _ e] at h; exact hinv.nc cls' a' h
 
 theorem inv_memoSub {cfg : Cfg} {s : State} (hinv : Inv cfg s) {pa b : Addr} {c : ClassId} {pp pb : Pal}
-    (h1 : s.heap.lookup pa = some pp) (h2 : s.heap.lookup b = some pb) (h3 : pb.cls = c)
+    (h1 : s.heap.lookup pa = some pp) (h2 : s.heap.lookup b = some pb) (h3 : pb.cls = subCls cfg pp.cls c)
     (h4 : pb.noColor = pp.noColor) (h5 : pp.noColor = false → pb.conf = pp.conf)
-    (h6 : ∀ k cf cls ci2, s.confs.lookup k = some cf → cf.cache.lookup cls = some pa → cfg.classes[c]? = some ci2 →
+    (h6 : ∀ k cf cls ci2, s.confs.lookup k = some cf → cf.cache.lookup cls = some pa →
+      cfg.classes[subCls cfg cls c]? = some ci2 →
       pb.colors = snapshot cfg ci2 cf) :
     Inv cfg (memoSub s pa c b) := by
   refine ⟨hinv.confs, hinv.pals, hinv.live, hinv.cache, hinv.nc, ?_, hinv.enums, hinv.cur, ?_, hinv.glob, hinv.gp⟩
@@ -650,23 +651,25 @@ theorem getSub_spec {cfg : Cfg} (hcfg : cfgOk cfg = true) {alloc : Alloc} (hal :
     · rename_i b0 hm
       cases h
       exact ⟨hinv, Frame.refl s, hm⟩
-    · cases hmk : mkPalette cfg alloc c pp.conf pp.noColor s with
+    · cases hmk : mkPalette cfg alloc (ci.actual c) pp.conf pp.noColor s with
       | error e => simp [hmk] at h
       | ok r =>
         obtain ⟨s1, b1⟩ := r
         simp only [hmk] at h
         cases h
         obtain ⟨hinv1, hfr, ⟨pb, hb1, hb2, hb3, hb4⟩, hb5⟩ := mkPalette_spec hcfg hal hinv hmk
+        have hsc : subCls cfg pp.cls c = ci.actual c := by simp [subCls, hci]
         have h6 : ∀ k cf cls ci2, s1.confs.lookup k = some cf → cf.cache.lookup cls = some pa →
-            cfg.classes[c]? = some ci2 → pb.colors = snapshot cfg ci2 cf := by
+            cfg.classes[subCls cfg cls c]? = some ci2 → pb.colors = snapshot cfg ci2 cf := by
           intro k cf cls ci2 hk hc hci2
-          obtain ⟨pp', e1, _, e3, e4⟩ := hinv1.cache k cf cls pa hk hc
+          obtain ⟨pp', e1, e2, e3, e4⟩ := hinv1.cache k cf cls pa hk hc
           rw [hfr.heap pa pp hpa] at e1; cases e1
           obtain ⟨c1, q1, q2⟩ := hb5 e4
           rw [e3] at q1
           rw [hk] at q1; cases q1
-          exact hinv1.cur k cf c _ pb ci2 hk q2 hb1 hci2
-        refine ⟨inv_memoSub hinv1 (hfr.heap pa pp hpa) hb1 hb2 hb3 hb4 h6, ?_, by simp [memoSub]⟩
+          rw [← e2, hsc] at hci2
+          exact hinv1.cur k cf (ci.actual c) _ pb ci2 hk q2 hb1 hci2
+        refine ⟨inv_memoSub hinv1 (hfr.heap pa pp hpa) hb1 (hb2.trans hsc.symm) hb3 hb4 h6, ?_, by simp [memoSub]⟩
         refine ⟨hfr.heap, hfr.confs, ?_, hfr.enumKeys⟩
         intro k0 b0 h0
         have := hfr.subs k0 b0 h0
